@@ -1,6 +1,7 @@
 """C10 — witnesses authorise exactly this transaction."""
 import hashlib, json, os, re, sys
 from lib import common as C
+from props import alike as A
 
 sys.path.insert(0, os.path.join(C.VERIF, 'tools'))
 from refcrypto import ed25519_ref as E          # pure-Python RFC 8032, independent of pycardano / nacl
@@ -289,6 +290,9 @@ def gen_scenario(rng, U, alias, i, sign, complete=False):
         for _ in range(rng.randint(1, 3)):
             collateral.append(new_utxo(cred(1.0 if sign else 0.7), 6 * ADA, stake_part()))
     rs = [some_hash() for _ in range(rng.randint(1, 3))] if 'rs' in want else None
+    if rs is not None and not sign and rng.random() < 0.25:
+        # a crowd: dozens of distinct required key hashes (a large multi-signature treasury); every one needs its own placeholder
+        rs += [rng.randbytes(28).hex() for _ in range(rng.choice([29, 30, 31, 32, 33, 40, 64, 65, 70]))]
     native = ([gen_ns(rng, some_hash, rng.randint(1, 2 if sign else 4), 2 if sign else 3) for _ in range(1 if sign else rng.randint(1, 2))]
               if 'native' in want else None)
     if 'attached' in want:
@@ -925,9 +929,9 @@ def correspond(ctx, n_sign=None, n_slice=None, n_build=None):
     n_build = n_build or ctx.n(64, 3000)
     U, alias = universe(ctx.rng)
     cases = corpus(U)
-    cases += [gen_scenario(ctx.rng, U, alias, i, True, complete=i % 3 == 0) for i in range(n_sign)]
-    cases += [gen_build_scenario(ctx.rng, U, alias, i) for i in range(n_build)]
-    cases += [gen_scenario(ctx.rng, U, alias, i, False) for i in range(n_slice)]
+    cases += [A.lookalike_ids(ctx.rng, gen_scenario(ctx.rng, U, alias, i, True, complete=i % 3 == 0)) for i in range(n_sign)]
+    cases += [A.lookalike_ids(ctx.rng, gen_build_scenario(ctx.rng, U, alias, i)) for i in range(n_build)]
+    cases += [A.lookalike_ids(ctx.rng, gen_scenario(ctx.rng, U, alias, i, False)) for i in range(n_slice)]
     results, posts, mism, ofail, errs = run(ctx, cases)
     if errs:
         raise RuntimeError('cases file failed to compile: ' + errs[0])
